@@ -278,8 +278,10 @@ func (l *WAL) Switch() (*WalFiles, error) {
 	for i := 0; i < l.partitionNum; i++ {
 		go func(lw *LogWriter) {
 			files, err := lw.Switch()
-			errs.Dispatch(err)
+			// hand the file names over before reporting completion: Err() below returns as soon as the last
+			// Dispatch ran, and the caller removes exactly the files it finds in walFiles
 			walFiles.Add(files...)
+			errs.Dispatch(err)
 		}(&l.logWriter[i])
 	}
 
